@@ -4,6 +4,7 @@ import (
 	"go/ast"
 	"go/token"
 	"go/types"
+	"strconv"
 	"strings"
 
 	"golang.org/x/tools/go/cfg"
@@ -156,45 +157,109 @@ func runC01(c *Ctx) {
 	// (3) leaf numbering
 	{
 		f := p.Func("pkg/cafs.fsWriter.Write")
-		b := p.BodyOf(f)
 		info := f.Info()
 		const fresh, counted = 1, 2
-		var bad []ast.Node
-		nGo := 0
-		isInc := func(n ast.Node) bool {
-			inc, ok := n.(*ast.IncDecStmt)
-			return ok && inc.Tok == token.INC && describeExpr(f, inc.X, 0) == "recv.count"
-		}
-		b.run(flowSpec{entry: fresh, node: func(n ast.Node, s uint64) uint64 {
-			if isInc(n) {
-				if s&counted != 0 {
-					bad = append(bad, n)
-				}
-				return counted
-			}
-			if g, ok := n.(*ast.GoStmt); ok && calleeID(info, g.Call) == "pkg/cafs.pFlush" {
-				nGo++
-				if s&fresh != 0 {
-					bad = append(bad, g)
-				}
-				return fresh
-			}
-			return s
-		}})
-		c.check(nGo > 0 && len(bad) == 0, "leaf-numbering.count-once-per-leaf", f.ID, p.Pos(f.Decl.Pos()),
-			"w.count is incremented exactly once before each flush goroutine", "w.count is not incremented exactly once before each `go pFlush`: two leaves would share a number or a number would be skipped, and Flush places keys by that number")
-		// the count handed over is w.count
+		// helpers of the package that Write calls and that start the flush goroutine themselves (a hand-off extracted
+		// from Write): analysed as part of Write
+		var helpers []*FuncInfo
 		ast.Inspect(f.Decl.Body, func(nd ast.Node) bool {
-			if g, ok := nd.(*ast.GoStmt); ok && calleeID(info, g.Call) == "pkg/cafs.pFlush" && len(g.Call.Args) >= 4 {
-				got := describeExpr(f, g.Call.Args[3], 0)
-				c.check(got == "recv.count", "leaf-numbering.count-passed", callKey(f, g.Call), p.Pos(g.Pos()), "leaf number argument <- w.count", "the leaf number handed to pFlush is `"+got+"`, not w.count")
-				last := describeExpr(f, g.Call.Args[0], 0)
-				c.check(last == "const:false", "leaf-numbering.count-passed", callKey(f, g.Call)+":isLast", p.Pos(g.Pos()), "full leaves are flushed with isLastNode=false", "full leaves are flushed with isLastNode="+last)
-				ls := describeExpr(f, g.Call.Args[2], 0)
-				c.check(ls == "recv.leafSize", "leaf-numbering.count-passed", callKey(f, g.Call)+":leafSize", p.Pos(g.Pos()), "leaf size argument <- w.leafSize", "leaf size handed to pFlush is `"+ls+"`")
+			call, ok := nd.(*ast.CallExpr)
+			if !ok {
+				return true
+			}
+			h := p.FuncOpt(calleeID(info, call))
+			if h == nil || h.Decl.Body == nil || ast.IsExported(h.Decl.Name.Name) || !strings.HasPrefix(h.ID, "pkg/cafs.") || h.ID == "pkg/cafs.pFlush" {
+				return true
+			}
+			starts := false
+			ast.Inspect(h.Decl.Body, func(m ast.Node) bool {
+				if g, ok := m.(*ast.GoStmt); ok && calleeID(h.Info(), g.Call) == "pkg/cafs.pFlush" {
+					starts = true
+				}
+				return true
+			})
+			if starts {
+				helpers = append(helpers, h)
 			}
 			return true
 		})
+		isHelperCall := func(n ast.Node) *FuncInfo {
+			es, ok := n.(*ast.ExprStmt)
+			if !ok {
+				return nil
+			}
+			call, ok := ast.Unparen(es.X).(*ast.CallExpr)
+			if !ok {
+				return nil
+			}
+			id := calleeID(info, call)
+			for _, h := range helpers {
+				if h.ID == id {
+					return h
+				}
+			}
+			return nil
+		}
+		// countFlow: on every path w.count is incremented exactly once before each `go pFlush`; returns the offending
+		// nodes, the number of flush starts, and whether every exit leaves no pending increment
+		var countFlow func(g *FuncInfo, depth int) ([]ast.Node, int, bool)
+		countFlow = func(g *FuncInfo, depth int) ([]ast.Node, int, bool) {
+			gb := p.BodyOf(g)
+			ginfo := g.Info()
+			var bad []ast.Node
+			nGo := 0
+			clean := true
+			gb.run(flowSpec{entry: fresh, node: func(n ast.Node, s uint64) uint64 {
+				if inc, ok := n.(*ast.IncDecStmt); ok && inc.Tok == token.INC && describeExpr(g, inc.X, 0) == "recv.count" {
+					if s&counted != 0 {
+						bad = append(bad, n)
+					}
+					return counted
+				}
+				if gs, ok := n.(*ast.GoStmt); ok && calleeID(ginfo, gs.Call) == "pkg/cafs.pFlush" {
+					nGo++
+					if s&fresh != 0 {
+						bad = append(bad, gs)
+					}
+					return fresh
+				}
+				if g == f && depth == 0 {
+					if h := isHelperCall(n); h != nil {
+						hbad, hgo, hclean := countFlow(h, 1)
+						if len(hbad) > 0 || hgo == 0 || !hclean || s&counted != 0 {
+							bad = append(bad, n)
+						}
+						nGo += hgo
+						return fresh
+					}
+				}
+				return s
+			}, exit: func(_ *cfg.Block, _ *ast.ReturnStmt, s uint64) {
+				if depth > 0 && s&counted != 0 {
+					clean = false
+				}
+			}})
+			return bad, nGo, clean
+		}
+		bad, nGo, _ := countFlow(f, 0)
+		c.check(nGo > 0 && len(bad) == 0, "leaf-numbering.count-once-per-leaf", f.ID, p.Pos(f.Decl.Pos()),
+			"w.count is incremented exactly once before each flush goroutine", "w.count is not incremented exactly once before each `go pFlush`: two leaves would share a number or a number would be skipped, and Flush places keys by that number")
+		// the count handed over is w.count
+		for _, g := range append([]*FuncInfo{f}, helpers...) {
+			g := g
+			ginfo := g.Info()
+			ast.Inspect(g.Decl.Body, func(nd ast.Node) bool {
+				if gs, ok := nd.(*ast.GoStmt); ok && calleeID(ginfo, gs.Call) == "pkg/cafs.pFlush" && len(gs.Call.Args) >= 4 {
+					got := describeExpr(g, gs.Call.Args[3], 0)
+					c.check(got == "recv.count", "leaf-numbering.count-passed", callKey(g, gs.Call), p.Pos(gs.Pos()), "leaf number argument <- w.count", "the leaf number handed to pFlush is `"+got+"`, not w.count")
+					last := describeExpr(g, gs.Call.Args[0], 0)
+					c.check(last == "const:false", "leaf-numbering.count-passed", callKey(g, gs.Call)+":isLast", p.Pos(gs.Pos()), "full leaves are flushed with isLastNode=false", "full leaves are flushed with isLastNode="+last)
+					ls := describeExpr(g, gs.Call.Args[2], 0)
+					c.check(ls == "recv.leafSize", "leaf-numbering.count-passed", callKey(g, gs.Call)+":leafSize", p.Pos(gs.Pos()), "leaf size argument <- w.leafSize", "leaf size handed to pFlush is `"+ls+"`")
+				}
+				return true
+			})
+		}
 	}
 	{
 		f := p.Func("pkg/cafs.pFlush")
@@ -295,14 +360,59 @@ func checkWriterHandoff(c *Ctx, rule string) {
 		})
 		return found
 	}
+	// the hand-off: `go pFlush(_, buf, …)` in Write itself, or a call of an unexported helper of the package that does
+	// `go pFlush(_, <its parameter>, …)` — then the buffer is the argument passed for that parameter
+	handoff := func(n ast.Node) (ast.Node, ast.Expr) {
+		if g, ok := n.(*ast.GoStmt); ok && calleeID(info, g.Call) == "pkg/cafs.pFlush" && len(g.Call.Args) > 1 {
+			return g, g.Call.Args[1]
+		}
+		es, ok := n.(*ast.ExprStmt)
+		if !ok {
+			return nil, nil
+		}
+		call, ok := ast.Unparen(es.X).(*ast.CallExpr)
+		if !ok {
+			return nil, nil
+		}
+		h := p.FuncOpt(calleeID(info, call))
+		if h == nil || h.Decl.Body == nil || ast.IsExported(h.Decl.Name.Name) || !strings.HasPrefix(h.ID, "pkg/cafs.") {
+			return nil, nil
+		}
+		var buf ast.Expr
+		ast.Inspect(h.Decl.Body, func(m ast.Node) bool {
+			if g, ok := m.(*ast.GoStmt); ok && calleeID(h.Info(), g.Call) == "pkg/cafs.pFlush" && len(g.Call.Args) > 1 {
+				d := describeExpr(h, g.Call.Args[1], 0)
+				if strings.HasPrefix(d, "param#") {
+					if i, err := strconv.Atoi(strings.TrimPrefix(d, "param#")); err == nil && i < len(call.Args) {
+						buf = call.Args[i]
+					}
+				} else if d == "recv.buf" {
+					if sel, ok := ast.Unparen(call.Fun).(*ast.SelectorExpr); ok {
+						buf = &ast.SelectorExpr{X: sel.X, Sel: ast.NewIdent("buf")}
+					}
+				}
+			}
+			return true
+		})
+		if buf == nil {
+			return nil, nil
+		}
+		return es, buf
+	}
 	b.run(flowSpec{entry: owned, node: func(n ast.Node, s uint64) uint64 {
-		if g, ok := n.(*ast.GoStmt); ok && calleeID(info, g.Call) == "pkg/cafs.pFlush" {
+		if g, bufArg := handoff(n); g != nil {
 			nGo++
-			if len(g.Call.Args) > 1 {
-				got := describeExpr(f, g.Call.Args[1], 0)
+			{
+				got := "recv.buf"
+				if _, synthetic := bufArg.(*ast.SelectorExpr); !synthetic || bufArg.Pos().IsValid() {
+					got = describeExpr(f, bufArg, 0)
+				}
 				if got != "recv.buf" {
 					bad = append(bad, g)
-					badWhy = "the buffer handed to the asynchronous flush is `" + got + "`, not the writer's own staging buffer: Write returns while the flush goroutine still reads memory the caller may reuse"
+					if badWhy == "" {
+						badWhy = "the buffer handed to the asynchronous flush is `" + got + "`, not the writer's own staging buffer: Write returns while the flush goroutine still reads memory the caller may reuse"
+					}
+					return s // the staging buffer itself was not handed over
 				}
 			}
 			if s&handed != 0 {
@@ -357,7 +467,7 @@ func checkWriterHandoff(c *Ctx, rule string) {
 		}
 		hasGo := false
 		ast.Inspect(ifs.Body, func(m ast.Node) bool {
-			if g, ok := m.(*ast.GoStmt); ok && calleeID(info, g.Call) == "pkg/cafs.pFlush" {
+			if g, _ := handoff(m); g != nil {
 				hasGo = true
 			}
 			return true
